@@ -496,6 +496,12 @@ def quantizeDither (p : Palette) : List RGB → DitherRes
         | r => r
       else .inexact
 
+/-- Floyd–Steinberg in general.  The colour handed to the lookup for a pixel is
+    `errors[col + 1].add(color)`: `f32` arithmetic on the diffused error, clamped to bytes — *some*
+    RGB triple.  The error terms are not modelled; `looked` lists the colours that were looked up
+    (one per pixel, arbitrary), and the loop over them is the plain one. -/
+def quantizeLooked (p : Palette) (looked : List RGB) : Option (List Nat) := quantizePlain p looked
+
 inductive QRes where
   /-- `quantize` returned `None` -/
   | none
@@ -522,6 +528,18 @@ def quantize (pixels : List RGB) (height width paletteSize : Nat) (dither : Bool
       match quantizePlain p pixels with
       | none => .panic
       | some is => .ok p.colors is
+
+/-- `Image::quantize(palette_size, true, bg)` with the dithering adjustments abstracted: the palette
+    comes from the pixels, the lookups are made for `looked` -/
+def quantizeDithered (pixels : List RGB) (height width paletteSize : Nat) (looked : List RGB) : QRes :=
+  match fromImage pixels height width paletteSize with
+  | .panic => .panic
+  | .hang => .hang
+  | .ok none => .none
+  | .ok (some p) =>
+    match quantizeLooked p looked with
+    | none => .panic
+    | some is => .ok p.colors is
 
 /-! ## line protocol -/
 open SurfModel.Proto
